@@ -390,3 +390,38 @@ _run_c05z = run
 def run(ctx):  # noqa: F811
     _run_c05z(ctx)
     r05_6(ctx, ctx.model)
+
+
+# ---------------------------------------------------------------------------------------------------------------- R05.7
+def r05_7(ctx, m):
+    R = "R05.7"
+    ctx.rule(R, "recognize_nodes and the node cut agree on the position of a node in a chain: the cut `chain._ops[:-1] + (placeholder,)` "
+                "replaces the INNERMOST element and placeholders are bound at the root, so the only element of a chain that may be "
+                "registered as a node is `op._ops[-1]`; a node registered from any other position (a loop over all positions) lives on "
+                "the target of the operators below it and the rewrite raises or binds the wrong keys", floor=1)
+    mod = m.module("nifty.cl.operator_tree_optimiser")
+    fi = next((f for f in mod.all_functions if f.name == "recognize_nodes"), None)
+    if fi is None:
+        ctx.und(R, "nifty.cl.operator_tree_optimiser::recognize_nodes", "function missing", mod.relpath)
+        return
+    ctx.saw_func(fi)
+    par = fi.node.args.args[0].arg
+    n = 0
+    for iff in [x for x in walk_no_nested(fi.node) if isinstance(x, ast.If) and "_OpChain" in src(x.test) and "isinstance" in src(x.test)]:
+        for c in [c for b in iff.body for c in ast.walk(b) if isinstance(c, ast.Call) and src(c.func) == "nodes.append" and c.args]:
+            n += 1
+            el = c.args[0].elts[0] if isinstance(c.args[0], ast.Tuple) and c.args[0].elts else c.args[0]
+            t = src(el).replace(" ", "")
+            ok = t in (f"{par}._ops[-1]", f"{par}._ops[len({par}._ops)-1]")
+            ctx.check(R, f"{fi.key}::a chain contributes only its innermost element as a node", ok,
+                      f"`{src(el)}` registered as a node" + ("" if ok else ": not (only) the innermost element of the chain, but the cut replaces `_ops[-1]`"), fi, c)
+    if not n:
+        ctx.und(R, f"{fi.key}::node registration from a chain", "pattern not found", fi)
+
+
+_run_c05w = run
+
+
+def run(ctx):  # noqa: F811
+    _run_c05w(ctx)
+    r05_7(ctx, ctx.model)
